@@ -312,7 +312,25 @@ func encryptedExtensionsMuts() []fieldMut {
 		})},
 		{"ee_ech_retry_configs", ee(func(rg *rand.Rand, exts []wire.Ext, ch *wire.ClientHello) []wire.Ext {
 			var body []byte
-			switch rg.Intn(4) {
+			switch rg.Intn(8) {
+			case 4: // a well-formed list for a key the client has never seen
+				body = peer.ECHConfigList(peer.NewECHKey(uint8(rg.Intn(256)), "public.example.test", []uint16{1}, uint8(rg.Intn(256))))
+			case 5: // well-formed list, unknown version first
+				good := peer.ECHConfigList(c33ECH().other)
+				body = vec16(append(append(be16(0xfe0a), vec16(randBytes(rg, rg.Intn(40)))...), good[2:]...))
+			case 6: // many configs
+				one := peer.ECHConfigList(c33ECH().other)[2:]
+				var l []byte
+				for i := 0; i < 1+rg.Intn(200); i++ {
+					l = append(l, one...)
+				}
+				if len(l) > 65000 {
+					l = l[:65000]
+				}
+				body = vec16(l)
+			case 7: // well-formed list with a mutated byte
+				body = peer.ECHConfigList(c33ECH().other)
+				body[rg.Intn(len(body))] ^= byte(1 << rg.Intn(8))
 			case 0:
 				body = vec16(nil)
 			case 1:
@@ -834,6 +852,24 @@ type c33Scenario struct {
 	clientCert bool
 	// needPSKExt: only for targets whose spec carries a pre_shared_key extension (or Golang)
 	needPSKExt bool
+	// ech: the client is configured with an ECHConfigList ("accept": the server holds the
+	// key; "reject": it holds another key with the same config id and sends retry configs)
+	ech string
+}
+
+// c33ECH: the ECH keys of the ECH scenarios (public name public.example.test).
+var c33ECH = sync.OnceValue(func() (k struct {
+	key, other *peer.ECHKey
+	leaf       tls.Certificate
+}) {
+	k.key = peer.NewECHKey(7, "public.example.test", []uint16{1, 3}, 32)
+	k.other = peer.NewECHKey(7, "public.example.test", []uint16{1, 3}, 32)
+	k.leaf = peer.Fix().CA.Leaf(peer.LeafOpts{Kind: "ecdsa", Names: []string{"example.test", "public.example.test"}})
+	return k
+})
+
+func echCapable(ch *wire.ClientHello, tg Target) bool {
+	return tg.ID.Client == tls.HelloGolang.Client && tg.Spec == nil || ch.Has(wire.ExtECH)
 }
 
 func c33Scenarios() []c33Scenario {
@@ -903,6 +939,29 @@ func c33Scenarios() []c33Scenario {
 		{name: "tls13-resume", tls13: true, resume: true, setup: func(ch *wire.ClientHello, o Offer) (*tls.Config, *tls.VerifPlan, func([]byte) []byte, bool) {
 			return srv(tls.VersionTLS13), &tls.VerifPlan{}, nil, has13(o) && ch.Has(wire.ExtPSKModes)
 		}, needPSKExt: true},
+		{name: "tls13-ech-accept", tls13: true, ech: "accept", setup: func(ch *wire.ClientHello, o Offer) (*tls.Config, *tls.VerifPlan, func([]byte) []byte, bool) {
+			c := srv(tls.VersionTLS13)
+			c.Certificates = []tls.Certificate{c33ECH().leaf}
+			c.EncryptedClientHelloKeys = peer.ECHServerKeys(true, c33ECH().key)
+			return c, &tls.VerifPlan{}, nil, has13(o)
+		}},
+		{name: "tls13-ech-accept-hrr", tls13: true, ech: "accept", setup: func(ch *wire.ClientHello, o Offer) (*tls.Config, *tls.VerifPlan, func([]byte) []byte, bool) {
+			c := srv(tls.VersionTLS13)
+			c.Certificates = []tls.Certificate{c33ECH().leaf}
+			c.EncryptedClientHelloKeys = peer.ECHServerKeys(true, c33ECH().key)
+			g := hrrGroupFor(ch)
+			if g == 0 {
+				g = tls.CurveP384
+			}
+			c.CurvePreferences = []tls.CurveID{g}
+			return c, &tls.VerifPlan{}, nil, has13(o)
+		}},
+		{name: "tls13-ech-reject", tls13: true, ech: "reject", setup: func(ch *wire.ClientHello, o Offer) (*tls.Config, *tls.VerifPlan, func([]byte) []byte, bool) {
+			c := srv(tls.VersionTLS13)
+			c.Certificates = []tls.Certificate{c33ECH().leaf}
+			c.EncryptedClientHelloKeys = peer.ECHServerKeys(true, c33ECH().other)
+			return c, &tls.VerifPlan{}, nil, has13(o)
+		}},
 		{name: "tls12", setup: func(ch *wire.ClientHello, o Offer) (*tls.Config, *tls.VerifPlan, func([]byte) []byte, bool) {
 			c := srv(tls.VersionTLS12)
 			leaf := f.ECDSA
@@ -1010,6 +1069,9 @@ func c33Run(cs c33Case, ch *wire.ClientHello, o Offer, cache tls.ClientSessionCa
 		ccfg.Certificates = []tls.Certificate{peer.Fix().ECDSA}
 	}
 	ccfg.ApplicationSettings = map[string][]byte{"h2": []byte("client-settings")}
+	if cs.sc.ech != "" {
+		ccfg.EncryptedClientHelloConfigList = peer.ECHConfigList(c33ECH().key)
+	}
 	server := tls.Server(s, scfg)
 	tls.VerifAttach(server, plan)
 	stop := make(chan struct{})
@@ -1438,6 +1500,9 @@ func TestC33(t *testing.T) {
 		if _, _, _, ok := sc.setup(ch, o); !ok {
 			return
 		}
+		if sc.ech != "" && !echCapable(ch, tg) {
+			return
+		}
 		if sc.needPSKExt && tg.ID.Client != tls.HelloGolang.Client && !specHas(tg, func(e tls.TLSExtension) bool { _, ok := e.(tls.PreSharedKeyExtension); return ok }) {
 			return
 		}
@@ -1455,7 +1520,8 @@ func TestC33(t *testing.T) {
 			r.Violation(map[string]string{"kind": "clean_run_failed", "target": family(tg.Name), "scenario": sc.name}, fmt.Sprintf("%s/%s: clean discovery run panicked or hung: %s", tg.Name, sc.name, firstLine(res.panicked)), nil)
 			return
 		}
-		if !res.completed {
+		if !res.completed && !(sc.ech == "reject" && len(res.serverTypes) >= 5) {
+			// (a clean ECH rejection ends in ECHRejectionError after the whole server flight)
 			r.Count("discovery_not_completed", 1)
 			return
 		}
